@@ -40,7 +40,7 @@ Proof. exact v_auto_bijection. Qed.
 Print Assumptions C02_auto_bijection.
 
 (* ... and it is observationally the specification index over [0..n-1] for every probe inside the
-   guard auto_key_ok (outside it: Refuted/C02.v, findings C02-auto-negative-key / C02-auto-float-key) *)
+   guard auto_key_ok (outside it: Refuted/C02_unvalidated_key.v, C02_float_key.v) *)
 Theorem C02_auto_refines : forall (n : nat) (probes : list (key val)),
   forallb (auto_key_ok val vto_Z n) probes = true ->
   M_auto val_eqb VInt vto_Z n probes = S_auto val_eqb VInt n probes.
@@ -75,12 +75,11 @@ Proof. exact v_go_observe. Qed.
 Print Assumptions C02_go_observe.
 
 (* IndexHierarchy.from_labels (dict-tree walk with the shared observed_last list, levels with relative
-   offsets, leaf_loc_to_iloc adding offsets): observed through every reader it is exactly the
-   specification "the index is the label table", accepted iff the labels have one depth >= 2, are
-   pairwise distinct and tree-ordered; for every label table and all probe keys that are not longer
-   than the depth (longer keys: finding C02-hier-contains-overlong) *)
+   offsets, leaf_loc_to_iloc adding offsets, __contains__): observed through every reader it is exactly
+   the specification "the index is the label table", accepted iff the labels have one depth >= 2, are
+   pairwise distinct and tree-ordered -- for every label table and ALL probe keys (short, over-long and
+   absent ones included; unguarded since fix 248eb88 of IndexLevel.__contains__) *)
 Theorem C02_hier_refines : forall (labs probes : list (list val)),
-  probes_ok val labs probes = true ->
   M_from_labels_obs val_eqb labs probes = S_from_labels val_eqb labs probes.
 Proof. exact v_from_labels_refines. Qed.
 Print Assumptions C02_hier_refines.
@@ -128,7 +127,7 @@ Print Assumptions C02_tree_order_is_contiguity.
 
 (* Index(labels, dtype=d): the map is built from the labels as given, the values from the converted
    labels; when the conversion changes no label (under Python equality) the index is the specification
-   index (otherwise: Refuted/C02.v, finding C02-init-dtype-map-mismatch) *)
+   index (otherwise: Refuted/C02_dtype_map.v, finding C02-init-dtype-map-mismatch) *)
 Theorem C02_index_dtype_refines : forall (l : list val) (probes : list (key val)),
   M_index_dtype val_eqb vto_Z l l probes = S_index val_eqb l probes.
 Proof. exact v_index_dtype_refines. Qed.
